@@ -4,6 +4,7 @@ mod p_consts;
 mod p_config;
 mod p_exec;
 mod p_cli;
+mod p_escape;
 
 use std::io::{BufWriter, Write};
 
@@ -19,6 +20,8 @@ fn main() {
         "exec" => p_exec::main(&args[1..], &mut w),
         "cli" => p_cli::main(&args[1..], &mut w),
         "validate" => p_exec::validate_main(&args[1..], &mut w),
+        "unicode" => p_consts::unicode(&args[1..], &mut w),
+        "escape" => p_escape::main(&args[1..], &mut w),
         "consts" => p_consts::main(&args[1..], &mut w),
         x => { eprintln!("unknown subcommand {}", x); std::process::exit(2); }
     }
